@@ -53,7 +53,7 @@ def run_shape(case):
     mask = api.build_mask(case["mask"], n)
     rank, seed = api.key_meta(dict(case, keys=case["keys"]), encs)
     shape = {"kind": "shape", "nvals": len(arrs), "single1d": int(vk in ("array", "series", "plseries")),
-             "vnames": [nm or "" for nm in vn], "knames": [nm or "" for nm in case["knames"]],
+             "vnames": ["" if nm is None else str(nm) for nm in vn], "knames": ["" if nm is None else str(nm) for nm in case["knames"]],
              "cfg": {k: case.get(k) for k in ("op", "vkind", "kkind", "kenc", "sort", "oo")}, "keys": case["keys"], "mask": case["mask"]}
     out_traces = [shape]
     try:
